@@ -225,7 +225,9 @@ impl<'a> Writer<'a> {
     }
 
     fn write_name(&mut self, name: Option<&BStr>) -> io::Result<()> {
-        const MISSING: &[u8] = &[b'*', 0x00];
+        // The name series is NUL-terminated by its encoding (byte array stop), so the marker itself
+        // must not contain the terminator.
+        const MISSING: &[u8] = b"*";
 
         let buf = name.map(|s| s.as_ref()).unwrap_or(MISSING);
 
